@@ -1,7 +1,7 @@
 """Rules over the decoder's path analysis (decoder.py), shared by C01, C02, C06, C07, C08."""
 import re
 
-from facts import AnchorMissing, op_place, short
+from facts import AnchorMissing, op_place, short, term_callee
 from decoder import (CTX_FLAGS, CTX_TYPES, STYLE_MARKERS, Decoder, fn_short, last_field)
 from pathflow import simple_local
 
@@ -413,6 +413,52 @@ def rule_unrolled(chk, facts):
                    f"(tests at lines {sorted({b[0] for b in bad})[:4]})", where=f"rust/candid/src/de.rs:{bad[0][0] if bad else ''}",
                    ok_detail="unroll_type() (or a vouching fast-path marker) precedes every type test")
     chk.floor("deserialize_* routines that test types", n, 25)
+
+
+def rule_raw_field_tests(chk, facts):
+    """a type taken from a field list (`e.ty`, `w.ty`: as written in the type table, possibly a reference to a definition) may steer an
+    optimisation or a hint without being resolved — the unresolved case then simply takes the general route — but it may not decide a
+    rejection: a field whose type is optional only through a type name would be refused"""
+    D = get_decoder(facts)
+    n = 0
+    seen = set()
+    for k, eb, s in D.sites("typetest-raw"):
+        if (k, s.block) in seen:
+            continue
+        seen.add((k, s.block))
+        b = D.bodies[k]
+        n += 1
+        t = s.term
+        targets = list(t.get("ts") or []) + ([t["o"]] if t.get("o") is not None else [])
+        rejecting = []
+        for tgt in targets:
+            cur, steps, rej = tgt, 0, False
+            while cur is not None and steps < 14:
+                blk = b.blocks[cur]
+                steps += 1
+                for st in blk["s"]:
+                    if st["k"] == "assign" and st["r"].get("k") == "agg" and st["r"].get("variant") == "Err":
+                        rej = True
+                tt = blk["t"]
+                if tt["k"] == "call":
+                    d, rr = term_callee(tt)
+                    if re.search(r"error::Error::(subtype|msg)$|FromResidual", rr or d or ""):
+                        rej = True
+                    cur = tt.get("t")
+                elif tt["k"] in ("goto", "drop", "assert"):
+                    cur = tt.get("t")
+                else:
+                    cur = None
+                if rej:
+                    break
+            if rej:
+                rejecting.append(tgt)
+        chk.expect(not rejecting, f"{fn_short(k)}:no-rejection-on-unresolved-field-type",
+                   f"{fn_short(k)} line {s.ln}: a type read from a field list (not resolved through the type table) is tested and one outcome "
+                   f"leads straight to an error: a field whose type is `opt`/`null`/`reserved` only through a type name would be refused; "
+                   f"resolve it with trace_type first (as the sibling paths do)", where=f"rust/candid/src/de.rs:{s.ln}",
+                   ok_detail="outcomes select a fast path or a hint only")
+    chk.floor("tests of unresolved field types in the decoder", n, 3)
 
 
 # ---------------------------------------------------------------------------------------------- progress
